@@ -53,6 +53,21 @@ fn main() {
             Err(_) => writeln!(w, "get {} PANIC -", op as u32).unwrap(),
         }
     }
+    // get() of the extended tables on every value of their opcode enumerations
+    for n in 0..4096u32 {
+        if let Some(op) = rspirv::spirv::GLOp::from_u32(n) {
+            match catch(move || Gl::get(op)) {
+                Ok(r) => writeln!(w, "get_glsl {} {} {}", n, r.opname, r.opcode).unwrap(),
+                Err(_) => writeln!(w, "get_glsl {} PANIC -", n).unwrap(),
+            }
+        }
+        if let Some(op) = rspirv::spirv::CLOp::from_u32(n) {
+            match catch(move || Cl::get(op)) {
+                Ok(r) => writeln!(w, "get_opencl {} {} {}", n, r.opname, r.opcode).unwrap(),
+                Err(_) => writeln!(w, "get_opencl {} PANIC -", n).unwrap(),
+            }
+        }
+    }
     // extended tables: every number up to 4096 (declared numbers are all below 256)
     for n in 0..4096u32 {
         if let Some(e) = Gl::lookup_opcode(n) {
